@@ -148,11 +148,27 @@ fn collect_proc_dec(
     };
     // index of the first token of the declaration, all ranges below are relative to the declaration
     let first = pd.info.to_range().start;
-    pd.info
-        .slice(tokens)
+    let slice = pd.info.slice(tokens);
+    slice
         .iter()
         .enumerate()
         .filter_map(|(i, token)| {
+            // identifiers in type expressions (behind `:` or `of`) are bound globally
+            let in_type_expression = slice[..i]
+                .iter()
+                .rev()
+                .find(|previous| !matches!(previous.token_type, TokenType::Comment(_)))
+                .map_or(false, |previous| {
+                    matches!(previous.token_type, TokenType::Colon | TokenType::Of)
+                });
+            let lookup_table = LookupTable {
+                local_table: if in_type_expression {
+                    None
+                } else {
+                    lookup_table.local_table
+                },
+                global_table: lookup_table.global_table,
+            };
             let semantic_token = if matches!(&pd.name, Some(name) if is_name_token(name, 0, first + i))
             {
                 Some(create_semantic_token(
